@@ -176,6 +176,8 @@ class FIXContainer:
 
         if tag in self:
             group_container = self.tags[tag]
+            if not isinstance(group_container, _FIXRepeatingGroupContainer):
+                raise FIXMessageError(f"{tag=} exists and is not a repeating group")
             group_container.add_group(group, index)
         else:
             group_container = _FIXRepeatingGroupContainer()
